@@ -90,7 +90,9 @@ def check(an: Analysis) -> None:
     v = unwrap(vals[0])
     if isinstance(v, ast.Call) and an.callee(init, v) == "builtins.dict" and len(v.args) == 1:
         v = v.args[0]
-    shape = CompShape(v)
+    from ..domains import comp_of
+
+    shape = comp_of(di, v) or CompShape(v)
     ob.inst(init, vals[0])
     if not shape.ok:
         raise AnalysisError(f"C01.1: unrecognised constructor mapping `{stmt_text(vals[0])}`")
@@ -278,18 +280,25 @@ def check(an: Analysis) -> None:
             ob.fail(f, None, "the scope never derives its state context through StateContext.updated")
             continue
         saw_disp = False
+        disp_defs: list[ast.AST] = []
         for c in ups:
             ob.inst(f, c)
-            order = merge_order(d, c.args[0]) if c.args else None
-            if order is None:
-                raise AnalysisError(f"C01.7: unrecognised state expression `{stmt_text(c.args[0]) if c.args else ''}` in {f.short}")
-            if "attr:self._state" not in order:
-                ob.fail(f, c, "the state given to the scope is not part of its state context")
-            disp = [t for t in order if c02.D_ENTER in t]
-            if disp:
-                saw_disp = True
-            if set(order) - {"attr:self._state"} - set(disp):
-                ob.fail(f, c, f"unexpected state source {order}")
+            arg = c.args[0] if c.args else None
+            alts = [arg]
+            if isinstance(arg, ast.Name) and d.owner(arg.id) is not None and d.single_value(arg.id) is None:
+                alts = [n for k, n in d.defs(d.owner(arg.id), arg.id) if k == "value" and not getattr(parent(n), "_inline_init", False)] or [arg]
+            for alt in alts:
+                order = merge_order(d, alt, _stack=frozenset({id(alt)})) if alt is not None else None
+                if order is None:
+                    raise AnalysisError(f"C01.7: unrecognised state expression `{stmt_text(alt) if alt is not None else ''}` in {f.short}")
+                if "attr:self._state" not in order:
+                    ob.fail(f, c, "the state given to the scope is not part of its state context")
+                disp = [t for t in order if c02.D_ENTER in t]
+                if disp:
+                    saw_disp = True
+                    disp_defs.append(alt)
+                if set(order) - {"attr:self._state"} - set(disp):
+                    ob.fail(f, c, f"unexpected state source {order}")
             p = parent(c)
             if not (isinstance(p, (ast.Assign, ast.AnnAssign)) and dotted(p.targets[0] if isinstance(p, ast.Assign) else p.target) == "self._state_context"):
                 ob.fail(f, c, "the derived state context is not stored as self._state_context")
@@ -297,7 +306,7 @@ def check(an: Analysis) -> None:
             ob.fail(f, ups[0], "state yielded by the disposables is not merged into the scope state")
         if needs_disp:
             # on the disposables-present paths the merged variant must be the one built
-            dn = [n for n in gf.nodes if n.kind == "call" and n.ast in ups and any(c02.D_ENTER in t for t in (merge_order(d, n.ast.args[0]) or []))]  # type: ignore[union-attr]
+            dn = [n for n in gf.nodes if (n.kind == "call" and n.ast in ups and n.ast.args and n.ast.args[0] in disp_defs) or (n.kind == "stmt" and getattr(n.ast, "value", None) is not None and any(n.ast.value is x for x in disp_defs))]  # type: ignore[union-attr]
 
             def skipnone(a, b, lab):
                 return a.kind == "test" and c02.none_edge(a.ast, "_disposables") == lab
